@@ -143,6 +143,8 @@ def gen_progs(rng, n, pid):
             opts["full_sig"] = rng.random() < 0.8
         if pid == "C12":
             opts["lit_p"] = 0.35
+        if pid == "C06":
+            opts["lit_p"] = 0.2
         if pid in ("C09", "C12"):
             opts["dup_field_p"] = 0.15
         if pid in ("C11", "C02"):
